@@ -367,9 +367,17 @@ fn synth_factor(
             } else {
                 // The `current` map shadows the persistent nets within a block
                 // so that `a = a + 1`-style reads pick up the previous value.
-                let src_nets = current
-                    .get(id)
-                    .cloned()
+                // ... except for a register inside `always_ff`: non-blocking
+                // assignment, the read sees Q, not the pending D.
+                let reads_q = ctx.ff_nonblocking
+                    && ctx.ff_allocation.contains_key(id)
+                    && ctx.variables.get(id).is_some_and(|s| !s.block_local);
+                let pending = if reads_q {
+                    None
+                } else {
+                    current.get(id).cloned()
+                };
+                let src_nets = pending
                     .or_else(|| ctx.variables.get(id).map(|s| s.nets.clone()))
                     .ok_or_else(|| {
                         SynthesizerError::internal(format!("reference to unknown variable {}", id))
